@@ -3,5 +3,7 @@
 set -e
 cd "$(dirname "$0")"
 coqc -Q ../coq Moss Extract.v >/dev/null
-ocamlfind ocamlopt -O2 -w -a -package str model.mli model.ml sexp.ml conv.ml flatrun.ml -o ../.build/flatrun 2>/dev/null || \
-ocamlfind ocamlopt -w -a -package str model.mli model.ml sexp.ml conv.ml flatrun.ml -o ../.build/flatrun
+mkdir -p ../.build
+for drv in flatrun treerun; do
+  ocamlfind ocamlopt -w -a -package str model.mli model.ml sexp.ml conv.ml $drv.ml -o ../.build/$drv
+done
